@@ -1,4 +1,5 @@
 #!/bin/sh
+export VERIF_EVIDENCE_DIR=/verif/target/scratch-evidence  # never touch the committed evidence
 # usage: tools/try_mutant.sh <patchfile|-e 'sed-expr' file> -- <PROP> [runs]
 # Applies a change to /repo, runs the check, reverts. Development helper, not a registered check.
 set -u
